@@ -1,5 +1,6 @@
 """C08 - counters, rows and value files agree once no operation is in flight."""
 
+import errno
 import io
 import sqlite3
 
@@ -363,6 +364,21 @@ def concurrent_program(dc, sc, res, rng, label):
     caches = [setup if shared else dc.Cache(d, timeout=0) for _ in range(nclients)]
     sch = Sched(rng, clock, strategy=rng.choice(['random', 'preempt']), preempt_points={rng.randrange(0, 100)})
     rec = Recorder(sch)
+    # in half of the programs one or two statements / file operations of some client fail while the others go on
+    # (never BEGIN, COMMIT or ROLLBACK, see DESIGN 7.18)
+    budget = [rng.randrange(1, 3) if rng.random() < 0.5 else 0]
+    fail_at = {rng.randrange(5, 120) for _ in range(3)}
+
+    def fault_hook(client, gate_label):
+        # the fault model of the single-threaded tier: a data statement or a file operation fails
+        if budget[0] > 0 and sch.steps in fail_at and client.in_op and gate_label in fault.SQL_FAIL + fault.FILE_FAIL:
+            budget[0] -= 1
+            res.count('failures_injected_into_concurrent_programs')
+            if gate_label in fault.SQL_FAIL:
+                return sqlite3.OperationalError('disk I/O error (injected at %s)' % gate_label)
+            return OSError(errno.ENOSPC if gate_label != 'pre:fopen' else errno.EIO, 'injected at %s' % gate_label)
+        return None
+    sch.fault_hook = fault_hook
 
     def client(ci):
         def run():
